@@ -78,6 +78,10 @@ def _eval_variant(args):
         v = payload
         m2 = apply_variant(model, v)
         name, fires = v.name, v.fires
+    elif kind == 'refactor':
+        name, patch = payload
+        m2 = apply_patch(model, patch)
+        fires = None
     else:
         name, patch = payload
         m2 = apply_patch(model, patch)
@@ -152,6 +156,21 @@ def seeded_for(pid):
     return out
 
 
+def refactorings():
+    """(name, patch) of the kept behaviour-preserving refactorings: every
+    check must stay silent on each of them."""
+    import os
+    base = os.path.join(os.path.dirname(os.path.dirname(
+        os.path.abspath(__file__))), 'refactorings')
+    out = []
+    if os.path.isdir(base):
+        for name in sorted(os.listdir(base)):
+            pp = os.path.join(base, name, 'patch.diff')
+            if os.path.exists(pp):
+                out.append((name, pp))
+    return out
+
+
 def validate(pid, mod, model, base_results=None, jobs=None):
     import os
     from concurrent.futures import ProcessPoolExecutor
@@ -173,6 +192,8 @@ def validate(pid, mod, model, base_results=None, jobs=None):
              for v in cat]
     tasks += [(pid, model.sources, model.root, 'seeded', sp, base)
               for sp in seeded_for(pid)]
+    tasks += [(pid, model.sources, model.root, 'refactor', rp, base)
+              for rp in refactorings()]
     jobs = jobs or min(16, os.cpu_count() or 4, max(1, len(tasks)))
     if jobs > 1 and len(tasks) > 2:
         with ProcessPoolExecutor(max_workers=jobs) as ex:
@@ -190,6 +211,19 @@ def validate(pid, mod, model, base_results=None, jobs=None):
                 out['failures'].append(
                     f'seeded {rec["name"]}: no longer detected '
                     f'({rec.get("analysis_error")})')
+        elif rec['kind'] == 'refactor':
+            out['refactorings'] = out.get('refactorings', 0) + 1
+            if rec['result'] == 'silent':
+                out['refactorings_silent'] = out.get(
+                    'refactorings_silent', 0) + 1
+            elif rec['result'] == 'stale':
+                out['refactorings_stale'] = out.get(
+                    'refactorings_stale', 0) + 1
+            else:
+                out['failures'].append(
+                    f'refactoring {rec["name"]}: expected silence; got '
+                    f'{rec.get("new_findings")} error: '
+                    f'{rec.get("analysis_error")}')
         elif rec['expect'] != 'silent':
             out['must_fire'] += 1
             if rec['result'] == 'fired':
